@@ -2110,7 +2110,12 @@ def _sensor_touch(
 
   # contacting bodies
   geom = contact_geom_in[conid]
-  conbody = wp.vec2i(geom_bodyid[geom[0]], geom_bodyid[geom[1]])
+  # flex contacts have no geom on the flex side
+  conbody = wp.vec2i(-1, -1)
+  if geom[0] >= 0:
+    conbody[0] = geom_bodyid[geom[0]]
+  if geom[1] >= 0:
+    conbody[1] = geom_bodyid[geom[1]]
 
   # select contacts involving sensorized body
   worldid = contact_worldid_in[conid]
@@ -2418,8 +2423,13 @@ def _contact_match(
     geom = contact_geom_in[contactid]
     geom1 = geom[0]
     geom2 = geom[1]
-    body1 = geom_bodyid[geom1]
-    body2 = geom_bodyid[geom2]
+    # flex contacts have no geom on the flex side
+    body1 = int(-1)
+    body2 = int(-1)
+    if geom1 >= 0:
+      body1 = geom_bodyid[geom1]
+    if geom2 >= 0:
+      body2 = geom_bodyid[geom2]
 
     # check match of sensor objects with contact objects
     match11 = _check_match(body_parentid, body1, geom1, objtype, objid)
